@@ -195,7 +195,11 @@ class ServerConfig:
         for path_config in self.certificate_auth_paths:
             # Convert fingerprints list to set if present
             fingerprints_list = path_config.get("allowed_fingerprints")
-            fingerprints = set(fingerprints_list) if fingerprints_list else None
+            # An empty list is a real (empty) whitelist that admits nobody,
+            # only a missing key means "no whitelist"
+            fingerprints = (
+                set(fingerprints_list) if fingerprints_list is not None else None
+            )
 
             path_rules.append(
                 CertificateAuthPathRule(
